@@ -133,6 +133,11 @@ def lammps_check(a):
         declared = counts.get(k, 0)
         if sec in sections and sections[sec] != declared:
             return "header declares %d %s but the %s section has %d lines" % (declared, k, sec, sections[sec])
+        if key != 'atom_types':
+            tab = getattr(a, key[:-1] + '_coeffs')
+            if len(tab) and (sections.get(sec, 0) != len(tab) or declared != len(tab)):
+                return "the structure has %d %s coefficient entries; the file declares %d %s and its %s section has %d lines" % (
+                    len(tab), key[:-6], declared, k, sec, sections.get(sec, 0))
         ids = getattr(a, key)
         if len(ids) and int(max(ids)) + 1 > declared:
             return "type id %d in use but only %d %s declared" % (int(max(ids)) + 1, declared, k)
